@@ -7,6 +7,9 @@ props = [json.loads(l) for l in open(os.path.join(ROOT, 'properties.jsonl'))]
 
 # id -> (technique, level text, level note, design ref)
 CHECKS = {
+ 'C14': ('runtime differential monitor: independently written functional policy evaluator (two formulations cross-checked) vs SpendPolicy.Verify over exhaustively enumerated small policy trees x witness assignments and random large trees; address-commitment laws; limits; end-to-end spends through consensus',
+         'All policy trees of depth <= 1 / breadth <= 3 and depth <= 2 / breadth <= 2 over every leaf kind with every threshold count (exhaustive sub-spaces), legacy unlock conditions over all short key/signature sequences incl. huge required counts, and random trees up to the complexity limits are verified with every witness assignment class (valid, corrupted, for another key, missing, surplus, swapped) at heights/times around each lock and compared with an evaluator written from the statement; Address(p) is compared with the definition and under every opaque substitution; opaqued branches become unusable; limits reject without blow-up; real outputs are spent through ValidateV2Transaction with harness-computed parent height and median.',
+         'Trusted: the functional evaluator and its second formulation (disagreement between them = inconclusive); x/crypto blake2b for the address model.', '§5 C14'),
  'C20': ('runtime round-trip monitors over generated values of every type with a text/JSON form (registry with go/parser completeness self-check); shadow client store driven by JSON-round-tripped updates on generated histories; exhaustive single-character corruption of address strings and length/prefix/alphabet corruption of all identifier forms',
          '115 registered types (153 forms) are formatted and parsed back over generated values incl. the unusual ones the quantifier lists, compared up to an explicit normaliser; on generated chains with reorgs every ApplyUpdate/RevertUpdate goes through JSON and drives a shadow store that must stay identical (every element, leaf index and proof hash) to the store driven by the originals and verify against the state; every single-character substitution of address strings and length/prefix/alphabet/case corruptions of every identifier syntax must yield an error or the same value, never another value or a panic.',
          'Trusted: the explicit normaliser (nil = empty, instants, sentinel payout, convenience fields); values restricted to what JSON can represent.', '§5 C20'),
